@@ -26,7 +26,7 @@ def fix_checksum(buf, off):
 
 def classify(o, cd, out_name="out.sqfs"):
     """returns clause or None"""
-    if o.timeout:
+    if o.timeout or o.rc == 71:      # CPU/wall limit or the simulator's (deterministic) step budget: both mean "did not terminate in bounded time"
         return "hang"
     if o.sig is not None:
         return "crash:signal%d" % o.sig
@@ -51,6 +51,29 @@ def classify(o, cd, out_name="out.sqfs"):
     if img.invalid:
         return "exit0-invalid-image:" + re.sub(r"\d+", "N", img.invalid[0])[:50]
     return None
+
+
+SPARSE_WORK_LIMIT = 1 << 26     # bytes of declared sparse real size that -b 4096 packs well inside the CPU budget (16384 blocks)
+
+
+def declared_sparse_size(blob):
+    """Largest real size any sparse member of the (uncompressed) stream *declares*, by a tolerant scan that does not follow the
+    archive structure: PAX GNU.sparse.size / GNU.sparse.realsize records anywhere, and the realsize field of every 512-aligned block
+    whose typeflag is 'S'. tar2sqfs legitimately does work proportional to that number (it packs the holes), so a run that exceeds the
+    CPU budget on an input declaring more than SPARSE_WORK_LIMIT is 'slow by declaration', not an endless loop."""
+    best = 0
+    for m in re.finditer(rb"GNU\.sparse\.(?:size|realsize)=(\d{1,40})", blob):
+        best = max(best, int(m.group(1)))
+    for off in range(0, len(blob) - 511, 512):
+        if blob[off + 156:off + 157] == b"S":
+            f = blob[off + 483:off + 495]
+            if f[0] & 0x80:
+                best = max(best, int.from_bytes(bytes([f[0] & 0x7f]) + f[1:], "big"))
+            else:
+                m = re.match(rb"\s*([0-7]+)", f)
+                if m:
+                    best = max(best, int(m.group(1), 8))
+    return best
 
 
 def run_t2s(bdir, cd, blob, cpu=10):
@@ -119,6 +142,83 @@ def tar_mutations(data, r, n_trunc, n_flip):
                     yield "ext-record", "extension payload byte %d := %#x" % (pos - h - 512, b[pos]), bytes(b)
 
 
+EXTREME = [b"0", b"1", b"-1", b"2147483647", b"2147483648", b"4294967295", b"4294967296", b"9223372036854775807", b"9223372036854775808",
+           b"18446744069414584320", b"18446744073709551609", b"18446744073709551615", b"18446744073709551616", b"99999999999999999999",
+           b"00000000000000000000000000000012", b"1e9", b"0x10", b" 12", b"12 ", b""]
+
+
+SMALL = [b"8", b"4096", b"100000", b"67108864", b"5000000", b"12", b"4097"]
+
+
+def pax_hostile_archives(r, n):
+    """PAX / GNU archives whose *numeric* fields carry boundary and overflowing values: record length prefixes, size / uid / gid /
+    mtime records, sparse map counts and offsets, long-name sizes, base-256 fields. Checksums are correct, so the parsers see them."""
+    out = []
+    body = b"hello world\n" * 40
+
+    def member(recs, size_field=None, typeflag=b"0", name=b"file", data=body, sparse_tail=None, magic=b"ustar\0" b"00"):
+        blob = b""
+        if recs is not None:
+            blob += tarmodel._header(b"PaxHeaders/x", 0o644, 0, 0, len(recs), 0, b"x") + tarmodel._pad(recs)
+        h = bytearray(tarmodel._header(name, 0o644, 0, 0, len(data), 0, typeflag, magic=magic, sparse_tail=sparse_tail))
+        if size_field is not None:
+            h[124:136] = size_field
+            c07fix(h)
+        return blob + bytes(h) + tarmodel._pad(data)
+
+    def c07fix(h):
+        h[148:156] = b" " * 8
+        s = sum(h)
+        h[148:156] = b"%06o\0 " % s
+
+    for _ in range(n):
+        k = r.randrange(9)
+        v = r.choice(EXTREME)
+        tail = member(None, name=b"after", data=b"x" * 10) + b"\0" * 1024
+        if k == 0:      # record length prefix
+            recs = v + b" path=some/name\n" + tarmodel._pax_record(b"uid", b"5")
+            out.append(("pax-record-length", "x record length %r" % v, member(recs) + tail))
+        elif k == 1:
+            key = r.choice([b"size", b"uid", b"gid", b"mtime", b"GNU.sparse.size", b"GNU.sparse.numblocks", b"GNU.sparse.realsize", b"GNU.sparse.offset",
+                            b"GNU.sparse.numbytes", b"GNU.sparse.major", b"GNU.sparse.minor"])
+            recs = tarmodel._pax_record(key, v)
+            out.append(("pax-number:" + key.decode(), "%s=%r" % (key.decode(), v), member(recs) + tail))
+        elif k == 2:    # sparse map 0.1 with hostile numbers
+            m = b",".join(r.choice(EXTREME) or b"0" for _ in range(r.choice([1, 2, 3, 4, 7])))
+            recs = tarmodel._pax_record(b"GNU.sparse.size", r.choice(EXTREME + SMALL) or b"0") + tarmodel._pax_record(b"GNU.sparse.numblocks", r.choice(EXTREME) or b"1") + \
+                tarmodel._pax_record(b"GNU.sparse.map", m)
+            out.append(("pax-sparse-map", "map=%r" % m, member(recs) + tail))
+        elif k == 3:    # sparse 1.0: numbers in the data area
+            m = (r.choice(EXTREME) or b"1") + b"\n" + b"".join((r.choice(EXTREME) or b"0") + b"\n" for _ in range(r.choice([1, 2, 4])))
+            recs = tarmodel._pax_record(b"GNU.sparse.major", b"1") + tarmodel._pax_record(b"GNU.sparse.minor", b"0") + \
+                tarmodel._pax_record(b"GNU.sparse.name", b"sp") + tarmodel._pax_record(b"GNU.sparse.realsize", r.choice(EXTREME + SMALL) or b"0")
+            out.append(("pax-sparse-1.0", "map %r" % m[:60], member(recs, data=tarmodel._pad(m) + body) + tail))
+        elif k == 4:    # header size field: octal extremes and base-256
+            sf = r.choice([b"77777777777\0", b"\x80" + b"\xff" * 11, b"\xff" * 12, b"\x80" + b"\0" * 3 + b"\xff" * 8, b"\x80" + b"\0" * 10 + b"\x01",
+                           b"99999999999\0", b"           \0", b"-0000000001\0"])
+            out.append(("header-size", "size field %r" % sf, member(None, size_field=sf) + tail))
+        elif k == 5:    # long name / long link records with hostile sizes
+            sf = r.choice([b"00000000000\0", b"77777777777\0", b"00000200000\0", b"\x80" + b"\xff" * 11, b"00000000001\0"])
+            out.append(("gnu-longname-size", "L record size %r" % sf, member(None, size_field=sf, typeflag=r.choice([b"L", b"K"]), name=b"././@LongLink",
+                                                                           data=b"n" * 300 + b"\0", magic=b"ustar  \0") + member(None) + tail))
+        elif k == 6:    # old GNU sparse header with hostile entries
+            t = bytearray(126)
+            for i in range(4):
+                t[i * 24:i * 24 + 12] = r.choice([b"77777777777\0", b"00000000000\0", b"\x80" + b"\xff" * 11, b"00000001000\0"])
+                t[i * 24 + 12:i * 24 + 24] = r.choice([b"77777777777\0", b"00000000000\0", b"\xff" * 12, b"00000000010\0"])
+            t[96] = r.choice([0, 1])
+            t[97:109] = r.choice([b"77777777777\0", b"00000000000\0", b"\x80" + b"\xff" * 11, b"00000100000\0", b"00000000020\0", b"00377777777\0"])
+            out.append(("gnu-sparse-old", "hostile in-header sparse entries", member(None, typeflag=b"S", sparse_tail=bytes(t), magic=b"ustar  \0") + tail))
+        elif k == 7:    # xattr records: empty keys, huge base64, bad url-encoding
+            recs = r.choice([b"SCHILY.xattr.", b"SCHILY.xattr.user.", b"LIBARCHIVE.xattr.", b"LIBARCHIVE.xattr.user.%", b"LIBARCHIVE.xattr.user.%zz", b"LIBARCHIVE.xattr.user.a%4"])
+            val = r.choice([b"", b"====", b"A", b"AAAA" * 3000, b"\xff\xfe", b"QUJD"])
+            out.append(("pax-xattr", "%r=%r" % (recs, val[:20]), member(tarmodel._pax_record(recs, val)) + tail))
+        else:           # record without newline / without '=' / length pointing past the end
+            recs = r.choice([b"12 path=abc", b"30 path=abc\n", b"11 pathabcd\n", b"3 =\n", b"5 a=\n\0\0\0", b"012 path=ab\n", b"+12 path=a\n"])
+            out.append(("pax-record-syntax", "%r" % recs, member(recs) + tail))
+    return out
+
+
 def hardlink_graphs(r):
     """small hostile link graphs as tar members (order matters: the resolver starts from the most recent link)"""
     nodes = [b"a", b"b", b"c"]
@@ -150,7 +250,9 @@ def tar_work(a):
     r = rng(seed, "c07", mode)
     try:
         with Scratch("c07") as cd:
-            if mode == "links":
+            if mode == "numbers":
+                muts = pax_hostile_archives(r, 60)
+            elif mode == "links":
                 muts = []
                 for combo in hardlink_graphs(r)[:40]:
                     muts.append(("hardlink-graph", "links %s" % " ".join("%s->%s" % (s.decode(), t.decode()) for s, t in combo), emit_links(combo, r, r.random() < 0.2)))
@@ -180,6 +282,9 @@ def tar_work(a):
                 res["runs"] += 1
                 res["classes"][cls.split(":")[0]] = res["classes"].get(cls.split(":")[0], 0) + 1
                 cl = classify(o, cd)
+                if cl == "hang" and declared_sparse_size(blob) > SPARSE_WORK_LIMIT:
+                    cl = None
+                    res["classes"]["slow-by-declared-sparse-size"] = res["classes"].get("slow-by-declared-sparse-size", 0) + 1
                 if o.rc == 0:
                     res["accepted"] += 1
                 elif o.rc == 1:
@@ -263,6 +368,8 @@ def replay(spec, bdir=None):
         with Scratch("c07r") as cd:
             o = run_t2s(bdir, cd, bytes.fromhex(spec["blob"]))
             cl = classify(o, cd)
+            if cl == "hang" and declared_sparse_size(bytes.fromhex(spec["blob"])) > SPARSE_WORK_LIMIT:
+                cl = None
     else:
         w = text_work((bdir, spec["seed"])) if spec["mode"] == "text" else tar_work((bdir, spec["seed"], spec["mode"]))
         cl = spec["clause"] if any(v["clause"] == spec["clause"] for v in w["viol"]) else None
@@ -283,6 +390,8 @@ def main():
         items.append(("tar", (bdir, derive(seed, "c07w", i) >> 1, "wrapped")))
     for i in range(2 * mult):
         items.append(("tar", (bdir, derive(seed, "c07l", i) >> 1, "links")))
+    for i in range(4 * mult):
+        items.append(("tar", (bdir, derive(seed, "c07n", i) >> 1, "numbers")))
     for i in range(8 * mult):
         items.append(("text", (bdir, derive(seed, "c07t", i) >> 1)))
     results = list(pmap_unordered(_dispatch, items))
